@@ -27,12 +27,27 @@ func (e *Engine) decUF(t *T) *T {
 	d := UF("dec", StrS, t)
 	key := fmt.Sprintf("dec:%d", t.id)
 	if !e.axiomSeen[key] {
-		e.addAxiom(key, AndN(
+		ax := []*T{
 			Eq(UF("undec", BVS(64), d), t),
 			UF("pu_ok", BoolS, d),
 			InRe(d, canonDecRe),
 			IntCmp("<=", mk("str.len", IntS, d), IntConst(20)),
-		))
+		}
+		// exact digit counts (opt-in per harness): len(dec n) = k  <=>  10^(k-1) <= n < 10^k
+		pow := uint64(1)
+		for k := 1; k <= 20 && e.exactDecLen; k++ {
+			lo := BVCmp("bvuge", t, BVConst(pow, 64))
+			if k == 1 {
+				lo = tTrue
+			}
+			hi := tTrue
+			if k < 20 {
+				hi = BVCmp("bvult", t, BVConst(pow*10, 64))
+			}
+			ax = append(ax, Implies(And(lo, hi), Eq(mk("str.len", IntS, d), IntConst(int64(k)))))
+			pow *= 10
+		}
+		e.addAxiom(key, AndN(ax...))
 	}
 	return d
 }
@@ -402,7 +417,7 @@ func (e *Engine) split(s, sep *T, n int) Value {
 	if n == 0 {
 		return (*SliceVal)(nil)
 	}
-	if pieces, ok := syntacticSplit(s, csep); ok && (n < 0 || len(pieces) <= n) {
+	if pieces, ok := e.syntacticSplit(s, csep); ok && (n < 0 || len(pieces) <= n) {
 		vals := make([]Value, len(pieces))
 		for i, p := range pieces {
 			vals[i] = p
@@ -567,7 +582,14 @@ func (e *Engine) hexUF(v *T, upper bool) *T {
 }
 
 // sepFree: the term can never contain the single-byte separator.
-func sepFree(t *T, sep byte) bool {
+func (e *Engine) sepFree(t *T, sep byte) bool {
+	// a fact on the path: not (str.contains t sep)
+	want := Not(StrContains(t, StrConst(string(sep))))
+	for _, c := range e.pc {
+		if c == want {
+			return true
+		}
+	}
 	if t.IsConst() {
 		return !strings.Contains(t.Str, string(sep))
 	}
@@ -578,13 +600,13 @@ func sepFree(t *T, sep byte) bool {
 		return !(sep >= '0' && sep <= '9' || sep >= 'a' && sep <= 'f' || sep >= 'A' && sep <= 'F')
 	}
 	if t.Op == "ite" {
-		return sepFree(t.Args[1], sep) && sepFree(t.Args[2], sep)
+		return e.sepFree(t.Args[1], sep) && e.sepFree(t.Args[2], sep)
 	}
 	return false
 }
 
 // syntacticSplit splits a concatenation whose symbolic pieces are known to be separator-free.
-func syntacticSplit(s *T, sep string) ([]*T, bool) {
+func (e *Engine) syntacticSplit(s *T, sep string) ([]*T, bool) {
 	if len(sep) != 1 {
 		return nil, false
 	}
@@ -606,7 +628,7 @@ func syntacticSplit(s *T, sep string) ([]*T, bool) {
 			}
 			continue
 		}
-		if !sepFree(p, sep[0]) {
+		if !e.sepFree(p, sep[0]) {
 			return nil, false
 		}
 		cur = append(cur, p)
